@@ -4,3 +4,6 @@ package pilosa
 
 // verifPoint is a no-op unless built with the "verif" tag (see verif_on.go).
 func verifPoint(name string, a, b uint64) uint64 { return 0 }
+
+// verifStr is a no-op unless built with the "verif" tag.
+func verifStr(s string) uint64 { return 0 }
